@@ -233,4 +233,17 @@ PROPS = {
         "level_text": "Exploration: thousands to hundreds of thousands of (diagram, parameter ring, variant) tuples; each of the three clauses (d^2=0, grading, specialisation) is decided exactly by independent arithmetic on the exported matrices. Right level: input/configuration property with exact, cheap judges.",
         "level_note": "Trusts the term-by-term export (iter over stored terms) and own arithmetic.",
     },
+    "C06": {
+        "budget_s": {"quick": 150, "thorough": 2400},
+        "floor": {"quick": 1500, "thorough": 40000},
+        "rule": "knot diagrams: table knots (3..9 crossings quick / 10), closures of random braid words that are knots, kinked unknots; (a) KhComplex::<i64>::new(D,h,0,red) for h in {0,+-1,2,3}: number of canonical cycles (2 / 1 reduced), "
+                "every generator in h-degree 0, d z = 0, and for h != 0 the class is non-torsion (rank[d_-1 | z] = rank d_-1 + 1 by own elimination modulo 2^31-1 on the exported matrices); "
+                "(b) links (table, split unions, switched crossings): homology with (h,t) = (1,0) over Z free of total rank 2^{#components}, with (0,1) over Q of total rank 2^{#components} (components counted by the oracle); "
+                "(c) ss_invariant for c = 2, 3 over i64, c = 2 over BigInt, c = H over F2[H], F3[H], Q[H]: reduced = unreduced, ss(mirror) = -ss, unchanged by 1-4 PD moves (relabel, permute, reverse, R1; bracket-checked), "
+                "ss(K-) <= ss(K+) <= ss(K-) + 2 for a random crossing of every diagram, 0 on kinked unknots; non-trivial = >= 3 crossings (or >= 2 components for (b)); distinct = hash of the diagram(s) and parameters",
+        "assumptions": COMMON_ASSUME + ["absolute values of ss are pinned only for unknots; otherwise relations between real runs are checked", "for h = 0 a vanishing canonical cycle is legitimate (the property demands non-torsion only for h != 0)"],
+        "technique": "reference-model + metamorphic monitor: canonical cycles checked on exported matrices with own modular rank; ss compared across isotopic diagrams, variants, mirror and crossing changes",
+        "level_text": "Exploration: thousands to hundreds of thousands of knot diagrams, crossings and move sequences; cycle conditions are decided exactly, the s-invariant through the relations the statement lists. Right level: input/history/configuration property.",
+        "level_note": "Non-torsion is decided modulo a 31-bit prime (one-sided error negligible); ss relations are necessary conditions.",
+    },
 }
